@@ -635,6 +635,12 @@ def unbrace_scalars(prog):
     """`const T x{v};` for a scalar T is `const T x = v;`"""
     n = 0
     for f in prog.all_functions(include_patterns=True):
+        # member initialisers `m{v}` of scalar members are `m(v)`
+        for mi in getattr(f, 'inits', None) or []:
+            i = mi.get('init')
+            if isinstance(i, dict) and i.get('k') == 'InitList' and len(i.get('elems', [])) == 1 and str(i.get('ty', '')).replace('const ', '').strip() in SCALARS:
+                mi['init'] = i['elems'][0]
+                n += 1
         if f.body is None:
             continue
         for x in _nodes(f.body):
